@@ -10,7 +10,7 @@ import genrun
 
 
 def check(rep):
-    coq = fw.coq_check("C05", ["SrcBond"])
+    coq = fw.coq_check("C05", ["SrcBond", "SrcAttach"])
     quick = rep.tier == "quick"
     cases, stats = genrun.collect(rep, 140 if quick else 6000, 10 if quick else 300, max_leaves=120 if quick else 2000,
                                   budget_s=120 if quick else 1500)
